@@ -234,7 +234,19 @@ def matches(c):
 MULTI_CMDS = [['translate'], ['translate', '--phase', '1'], ['translate', '--genetic-code', 'mitov'], ['translate', '--ref-seq', 'ref']]
 
 
+def _gen_large(rng, tier):
+    for _ in range(2 if tier == "quick" else 10):
+        L = rng.choice([4097, 4100, 6001, 12290])
+        s = "".join(rng.choice("ACGTacgtNRY-") for _ in range(L))
+        yield Case("translate", [rng.randint(0, 2), rng.randint(0, 2), s], True, "translate-large")
+        n = rng.choice([101, 120])
+        rows = ",".join("s%d:%s" % (i, "".join(rng.choice("ACGT") for _ in range(9))) for i in range(n))
+        yield Case("altranslate", [1, rng.choice([0, 1, 2, -1]), rng.randint(0, 2), rows], True, "alignment-translate-large")
+
+
 def gen(rng, tier):
+    for c in _gen_large(rng, tier):
+        yield c
     from driver import multigen
     for c in _gen_core(rng, tier):
         yield c
